@@ -12,7 +12,31 @@ impl<T, const CAP: usize> ArrayVec<T, CAP> {
         if self.v.len() >= CAP { panic!("ArrayVec: capacity exceeded in push"); }
         self.v.push(x)
     }
+    pub fn try_push(&mut self, x: T) -> Result<(), CapacityError<T>> {
+        if self.v.len() >= CAP { Err(CapacityError(x)) } else { self.v.push(x); Ok(()) }
+    }
+    #[inline] pub fn remaining_capacity(&self) -> usize { CAP - self.v.len() }
+    #[inline] pub fn pop(&mut self) -> Option<T> { self.v.pop() }
+    #[inline] pub fn clear(&mut self) { self.v.clear() }
+    #[inline] pub fn remove(&mut self, i: usize) -> T { self.v.remove(i) }
+    #[inline] pub fn swap_remove(&mut self, i: usize) -> T { self.v.swap_remove(i) }
+    #[inline] pub fn truncate(&mut self, n: usize) { self.v.truncate(n) }
+    #[inline] pub fn retain<F: FnMut(&mut T) -> bool>(&mut self, mut f: F) { self.v.retain_mut(|x| f(x)) }
+    #[track_caller]
+    pub fn insert(&mut self, i: usize, x: T) {
+        if self.v.len() >= CAP { panic!("ArrayVec: capacity exceeded in insert"); }
+        self.v.insert(i, x)
+    }
+    #[inline] pub fn as_slice(&self) -> &[T] { &self.v }
+    #[inline] pub fn as_mut_slice(&mut self) -> &mut [T] { &mut self.v }
+    #[inline] pub fn drain<R: std::ops::RangeBounds<usize>>(&mut self, r: R) -> std::vec::Drain<'_, T> { self.v.drain(r) }
 }
+#[derive(Debug)]
+pub struct CapacityError<T = ()>(pub T);
+impl<T, const CAP: usize> Extend<T> for ArrayVec<T, CAP> { fn extend<I: IntoIterator<Item = T>>(&mut self, it: I) { for x in it { self.push(x); } } }
+impl<T: Clone, const CAP: usize> Clone for ArrayVec<T, CAP> { fn clone(&self) -> Self { ArrayVec { v: self.v.clone() } } }
+impl<T: std::fmt::Debug, const CAP: usize> std::fmt::Debug for ArrayVec<T, CAP> { fn fmt(&self, f: &mut std::fmt::Formatter) -> std::fmt::Result { self.v.fmt(f) } }
+impl<T: PartialEq, const CAP: usize> PartialEq for ArrayVec<T, CAP> { fn eq(&self, o: &Self) -> bool { self.v == o.v } }
 impl<T, const CAP: usize> Default for ArrayVec<T, CAP> { fn default() -> Self { Self::new() } }
 impl<T, const CAP: usize> Deref for ArrayVec<T, CAP> { type Target = [T]; fn deref(&self) -> &[T] { &self.v } }
 impl<T, const CAP: usize> DerefMut for ArrayVec<T, CAP> { fn deref_mut(&mut self) -> &mut [T] { &mut self.v } }
